@@ -41,7 +41,7 @@ func unMarshalMessage(b []byte) (*Message, error) {
 		bizLogger.Errorf("Unmarshal message error:%s", e.Error())
 		return nil, e
 	}
-	m := Message{Code: *message.Code, Body: message.Body}
+	m := Message{Code: message.GetCode(), Body: message.Body}
 	return &m, nil
 }
 
